@@ -452,6 +452,10 @@ class Gen:
                 '(n := len(%s)) + n' % src,
                 '(len([(acc := r.amt) for r in %s if r.qty > 0]) * 0 + acc)' % src,
                 '(sum((last := r.qty) for r in %s) - last)' % src,
+                # loop variables / := targets spelled like a primitive shadow it, as in Python
+                'sum(day.qty for day in %s)' % src, 'len([amount for amount in %s if amount.amt > 1])' % src,
+                '(sum(Source.amt for Source in %s) + len(source))' % src, '((month := len(%s)) + month)' % src,
+                '(len([year for year in %s if year.qty > 0]) + year)' % src,
                 'round(%s, %d)' % (self.N(d - 1), r.randint(0, 2)),
             ])
         if c == 9:
@@ -508,8 +512,12 @@ class Gen:
 
     def _rowbool(self, src, d):
         r = self.r
-        k = r.randint(0, 5)
+        k = r.randint(0, 6)
         c = self.Brow(d - 1)
+        if k == 6:
+            return r.choice(['any(description.amt > %s for description in %s)' % (self.N(0), src),
+                             'all(amount.qty >= 0 and amount.amt < %s for amount in %s)' % (self.N(0), src),
+                             '((weekday := len(%s)) == weekday)' % src])
         if k == 0:
             return 'any(%s for r in %s)' % (c, src)
         if k == 1:
